@@ -222,6 +222,16 @@ pub fn h_try_insert_kp(n: usize, tab: [u8; 8], hb: u32, kfix: i8, probe: bool) {
 // ---------------------------------------------------------------------------
 static mut CALLED: u8 = 0;
 
+/// Resets the per-harness ghost state (native witness search runs a harness many times).
+#[cfg(not(kani))]
+pub fn reset_ghost() {
+    unsafe {
+        CALLED = 0;
+        LOGN = 0;
+        LOG = [(99, 99, 99); NMAX + 1];
+    }
+}
+
 pub fn h_mutate(n: usize, tab: [u8; 8], hb: u32) {
     h_mutate_k(n, tab, hb, -1)
 }
